@@ -1,6 +1,223 @@
 import DaskModel.DriverLib
+import DaskModel.Model.Blockwise
+import DaskModel.Model.Annot
+import DaskModel.Model.HLG
+import DaskModel.Generated.FuseRules
 open Dask
 
-def table : List (String × Handler) := []
+namespace HlgDrv
+open Dask.Blockwise
+
+/-! decoding helpers -/
+def toArg? : SExp → Option Arg
+  | .list [n, ind, nb, io] => do
+    pure { name := ← n.toNat?, ind := ← ind.toNats?, nb := ← nb.toNats?, io := ← io.toBool? }
+  | _ => none
+
+def toArgs? (e : SExp) : Option (List Arg) := do (← e.toList?).mapM toArg?
+
+def toPairs? (e : SExp) : Option (List (Nat × Nat)) := do
+  (← e.toList?).mapM fun p => match p with
+    | .list [a, b] => do pure (← a.toNat?, ← b.toNat?)
+    | _ => none
+
+def toKey? : SExp → Option Key
+  | .list (n :: cs) => do pure (← n.toNat?, ← cs.mapM SExp.toNat?)
+  | _ => none
+
+/-- `(output (outInd…) (args…) (consts…) (newAxes…) concatenate)` -/
+def toLayer? : SExp → Option Layer
+  | .list [o, oi, args, consts, na, conc] => do
+    pure { output := ← o.toNat?, outInd := ← oi.toNats?, args := ← toArgs? args,
+           consts := ← (← consts.toList?).mapM toKey?, newAxes := ← toPairs? na, concatenate := ← conc.toBool? }
+  | _ => none
+
+def ofCoord : Coord → SExp
+  | .one n => SExp.ofNat n
+  | .many l => SExp.ofNats l
+
+def ofKey (k : Key) : SExp := .list (SExp.ofNat k.1 :: k.2.map SExp.ofNat)
+
+def ofPairs (l : List (Nat × Nat)) : SExp := .list (l.map fun p => .list [SExp.ofNat p.1, SExp.ofNat p.2])
+
+partial def ofLoL : LoL → SExp
+  | .leaf k => ofKey k
+  | .node l => .list (.sym "L" :: l.map ofLoL)
+
+partial def ofTerm : Term → SExp
+  | .ref k => .list [.sym "ref", ofKey k]
+  | .lst l => .list (.sym "L" :: l.map ofTerm)
+  | .concat t axes => .list [.sym "concat", ofTerm t, SExp.ofNats axes]
+  | .data => .sym "data"
+
+def okOr (r : Option SExp) : SExp := match r with
+  | some e => .list [.sym "ok", e]
+  | none => .list [.sym "raised"]
+
+/-- `(bdims (args…))` ↦ `(ok ((sym dim)…))` | `(raised)` : `broadcast_dimensions` -/
+def hBdims : Handler := handler fun a => match a with
+  | [args] => do
+    let args ← toArgs? args
+    pure (okOr ((broadcastDims args).map ofPairs))
+  | _ => none
+
+/-- `(makedims (args…) ((sym nblocks)…))` : `_make_dims` -/
+def hMakeDims : Handler := handler fun a => match a with
+  | [args, na] => do
+    let args ← toArgs? args
+    let na ← toPairs? na
+    pure (okOr ((makeDims args na).map ofPairs))
+  | _ => none
+
+/-- `(coordmap (out…) (dums…) (args…))` ↦ `(ok ((positions…)…) ((axes…)…))` : the raw `coord_maps`/`concat_axes` for the
+    given enumeration of the dummy indices -/
+def hCoordMap : Handler := handler fun a => match a with
+  | [out, dums, args] => do
+    let out ← out.toNats?
+    let dums ← dums.toNats?
+    let args ← toArgs? args
+    let pm := posMaps out dums
+    pure (okOr do
+      let cms ← traverse (coordMap pm) args
+      pure (.list [.list (cms.map SExp.ofInts), .list (args.map fun x => SExp.ofNats (concatAxes dums x))]))
+  | _ => none
+
+/-- `(dummies ((sym dim)…) conc (dums…))` ↦ the `dummies` tuple -/
+def hDummies : Handler := handler fun a => match a with
+  | [dims, conc, dums] => do
+    let dims ← toPairs? dims
+    let conc ← conc.toBool?
+    let dums ← dums.toNats?
+    pure (okOr ((dummiesTuple dims conc dums).map fun l => .list (l.map ofCoord)))
+  | _ => none
+
+/-- `(argcoords (out…) (dums…) ((sym dim)…) conc (o…) (args…))` ↦ resolved `arg_coords` of every argument -/
+def hArgCoords : Handler := handler fun a => match a with
+  | [out, dums, dims, conc, o, args] => do
+    let out ← out.toNats?
+    let dums ← dums.toNats?
+    let dims ← toPairs? dims
+    let conc ← conc.toBool?
+    let o ← o.toNats?
+    let args ← toArgs? args
+    pure (okOr do
+      let cs ← traverse (argCoords out dums dims conc o) args
+      pure (.list (cs.map fun c => .list (c.map ofCoord))))
+  | _ => none
+
+/-- same through the specification `argCoordsSpec` (used to cross-check the proved equality at run time) -/
+def hArgCoordsSpec : Handler := handler fun a => match a with
+  | [out, dims, conc, o, args] => do
+    let out ← out.toNats?
+    let dims ← toPairs? dims
+    let conc ← conc.toBool?
+    let o ← o.toNats?
+    let args ← toArgs? args
+    pure (okOr do
+      let cs ← traverse (argCoordsSpec out dims conc o) args
+      pure (.list (cs.map fun c => .list (c.map ofCoord))))
+  | _ => none
+
+def toCoord? : SExp → Option Coord
+  | .int i => if i ≥ 0 then some (.one i.toNat) else none
+  | .list l => do pure (.many (← l.mapM SExp.toNat?))
+  | _ => none
+
+/-- `(lol name (values…))` : `_lol_product((name,), values)` -/
+def hLol : Handler := handler fun a => match a with
+  | [n, vs] => do
+    let n ← n.toNat?
+    let vs ← (← vs.toList?).mapM toCoord?
+    pure (.list [ofLoL (lolProduct (n, []) vs), .list ((lolProduct (n, []) vs).flatten.map ofKey)])
+  | _ => none
+
+/-- `(culldeps layer (o…))` ↦ `(ok (key…))` -/
+def hCullDeps : Handler := handler fun a => match a with
+  | [l, o] => do
+    let l ← toLayer? l
+    let o ← o.toNats?
+    pure (okOr ((cullDeps l o).map fun ks => .list (ks.map ofKey)))
+  | _ => none
+
+/-- `(task layer (o…))` ↦ `(ok (argument terms…) (dependencies…))` -/
+def hTask : Handler := handler fun a => match a with
+  | [l, o] => do
+    let l ← toLayer? l
+    let o ← o.toNats?
+    pure (okOr ((mkTask l o).map fun ts => .list [.list (ts.map ofTerm), .list ((Term.depsList ts).map ofKey)]))
+  | _ => none
+
+/-- `(blocks layer)` ↦ all output block coordinates -/
+def hBlocks : Handler := handler fun a => match a with
+  | [l] => do
+    let l ← toLayer? l
+    pure (okOr ((outputBlocks l).map fun bs => .list (bs.map SExp.ofNats)))
+  | _ => none
+
+/-! annotations -/
+open Dask.Annot in
+def toVal? : SExp → Option Val
+  | .list [.sym "int", i] => do pure (.int (← i.toInt?))
+  | .list [.sym "res", m] => do
+    let m ← (← m.toList?).mapM fun p => match p with
+      | .list [k, v] => do pure (← k.toStr?, ← v.toInt?)
+      | _ => none
+    pure (.res m)
+  | .list [.sym "set", l] => do pure (.set (← l.toNats?))
+  | .list [.sym "bool", b] => do pure (.bool (← b.toBool?))
+  | .list [.sym "other", n] => do pure (.other (← n.toNat?))
+  | _ => none
+
+open Dask.Annot in
+def ofVal : Val → SExp
+  | .int i => .list [.sym "int", .int i]
+  | .res m => .list [.sym "res", .list (m.map fun p => .list [.str p.1, .int p.2])]
+  | .set l => .list [.sym "set", SExp.ofNats l]
+  | .bool b => .list [.sym "bool", SExp.ofBool b]
+  | .other n => .list [.sym "other", SExp.ofNat n]
+
+open Dask.Annot in
+def toAnn? (e : SExp) : Option Ann := do
+  (← e.toList?).mapM fun p => match p with
+    | .list [k, v] => do pure (← k.toStr?, ← toVal? v)
+    | _ => none
+
+/-- `(fuseann (ann…))` with the GENERATED rule table ↦ `(ok ((key val)…))` | `(raised)` -/
+def hFuseAnn : Handler := handler fun a => match a with
+  | [anns] => do
+    let anns ← (← anns.toList?).mapM toAnn?
+    pure (okOr ((Dask.Annot.fuse Dask.Generated.FuseRules.rules anns).map fun r =>
+      .list (r.map fun p => .list [.str p.1, ofVal p.2])))
+  | _ => none
+
+def hFuseRules : Handler := fun _ =>
+  .list [.list (Dask.Generated.FuseRules.rules.map fun p => .list [.str p.1, .sym (match p.2 with
+      | .max => "max" | .mergeWithMax => "mergeWithMax" | .setIntersection => "setIntersection" | .all => "all")]),
+    .list (Dask.Generated.FuseRules.fusable.map .str)]
+
+/-! high-level graph -/
+def toTask? : SExp → Option Dask.HLG.Task
+  | .list [k, d] => do pure (← k.toNat?, ← d.toNats?)
+  | _ => none
+
+def toHLayer? : SExp → Option Dask.HLG.LayerIn
+  | .list [f, ts, ord] => do pure { shortcut := ← f.toBool?, tasks := ← (← ts.toList?).mapM toTask?, ord := ← ord.toNats? }
+  | _ => none
+
+/-- `(hlgcull ((shortcut ((key (deps…))…) (order…))…) (keys…))` ↦ kept keys per returned layer -/
+def hHlgCull : Handler := handler fun a => match a with
+  | [ls, ks] => do
+    let ls ← (← ls.toList?).mapM toHLayer?
+    let ks ← ks.toNats?
+    pure (.list ((Dask.HLG.cull ls ks).map fun l => SExp.ofNats (Dask.HLG.keysOf l)))
+  | _ => none
+
+end HlgDrv
+
+def table : List (String × Handler) := [
+  ("bdims", HlgDrv.hBdims), ("makedims", HlgDrv.hMakeDims), ("coordmap", HlgDrv.hCoordMap),
+  ("dummies", HlgDrv.hDummies), ("argcoords", HlgDrv.hArgCoords), ("argcoordsspec", HlgDrv.hArgCoordsSpec),
+  ("lol", HlgDrv.hLol), ("culldeps", HlgDrv.hCullDeps), ("task", HlgDrv.hTask), ("blocks", HlgDrv.hBlocks),
+  ("fuseann", HlgDrv.hFuseAnn), ("fuserules", HlgDrv.hFuseRules), ("hlgcull", HlgDrv.hHlgCull)]
 
 def main : IO Unit := runDriver table
